@@ -36,6 +36,9 @@ type sInst struct {
 	// has ALREADY fired: nothing may happen (in particular the start event does
 	// not count a second time towards "every start event has fired")
 	SigStarts int `json:"sigStarts,omitempty"`
+	// CondStarts: see descriptor.CondStarts (a false conditional flow listed
+	// before the start event's real flow)
+	CondStarts int `json:"condStarts,omitempty"`
 }
 
 type sAction struct {
@@ -136,7 +139,7 @@ func runShared(d sharedDesc) *sharedResult {
 		return r
 	}
 	for i, si := range d.Insts {
-		g := build(descriptor{Starts: si.Starts, Chain: si.Chain, Merge: si.Merge, SigStarts: si.SigStarts})
+		g := build(descriptor{Starts: si.Starts, Chain: si.Chain, Merge: si.Merge, SigStarts: si.SigStarts, CondStarts: si.CondStarts})
 		prog := &gen.Program{G: g, DefaultLang: "expr"}
 		x := prog.XML()
 		r.XML = append(r.XML, x)
@@ -428,6 +431,9 @@ func drawShared(rt *rapid.T) sharedDesc {
 			si.Chain = append(si.Chain, rapid.IntRange(-1, 2).Draw(rt, "chain"))
 		}
 		si.First = rapid.IntRange(1, si.Starts).Draw(rt, "first")
+		if rapid.Bool().Draw(rt, "condStarts") {
+			si.CondStarts = rapid.IntRange(1, 1<<si.Starts-1).Draw(rt, "condStartMask")
+		}
 		if rapid.Bool().Draw(rt, "signalStarts") {
 			si.SigStarts = rapid.IntRange(1, 1<<si.Starts-1).Draw(rt, "sigStarts")
 		}
